@@ -159,6 +159,17 @@ def encodeMsgFull (ctx : Nat) (cmd : Bytes) (m : Msg) (max : Nat) : List PDV × 
         let r := encodeFileData ctx file off max
         (c.1 ++ r.1, r.2)
 
+/-! ### the sending provider (`DIMSEServiceProvider.send_msg`) -/
+
+/-- `DIMSEServiceProvider.maximum_pdu_size`: the maximum length the *peer* advertised — the
+acceptor's when we are the requestor, the requestor's when we are the acceptor.  Our own maximum
+(what we are willing to receive) plays no part. -/
+def peerMax (isRequestor : Bool) (reqMax accMax : Nat) : Nat := if isRequestor then accMax else reqMax
+
+/-- `send_msg`: fragment to the peer's maximum and hand every P-DATA primitive to the provider -/
+def sendMsg (isRequestor : Bool) (reqMax accMax ctx : Nat) (cmd : Bytes) (m : Msg) : List PDV × Option EncErr :=
+  encodeMsgFull ctx cmd m (peerMax isRequestor reqMax accMax)
+
 /-! ### primitive → message (data-set half) -/
 
 /-- What `primitive_to_message` looks at: `kw` ⇔ the message class is a key of
